@@ -176,7 +176,9 @@ def rot_rules(chk):
                                      e.value.shape[0] == LinExpr("n") for e in apps)
             chk.ob("R-ROT-SCAN", cc + "{measure}", "the appended value is the named attribute of this iteration's combination, whole", okv,
                    derived="%s" % [(e.value.kind, e.value.shape) for e in apps], loc=apps[0].loc if apps else fs.loc(),
-                   inconclusive=bool(apps) and any(e.value.kind == K_TOP and e.value.indef for e in apps))
+                   inconclusive=bool(apps) and any((e.value.kind == K_TOP and e.value.indef) or
+                                                   (e.value.kind == K_ARRAY and (e.value.indef or e.value.shape is None or any(d_ is None for d_ in e.value.shape)))
+                                                   for e in apps))
         elif label == "callable":
             okv = bool(apps) and all("user-fn" in e.value.tags and "arg-obj" in e.value.tags for e in apps)
             chk.ob("R-ROT-SCAN", cc + "{measure}", "the appended value is func(new_sig) (or its last element)", okv,
